@@ -54,6 +54,56 @@ func VerifH_C01_RingAlgebra() {
 		vAssertPolyEq(r, acc, rhs, "Ring-MulThenAdd")
 		r.MulCoeffsMontgomeryThenSub(a, cm, acc)
 		vAssertPolyEq(r, acc, t2, "Ring-MulThenSub")
+		// scalar operations with scalars below, between and above the moduli (and near 2^64): the scalar acts through
+		// its residue modulo every prime
+		for si, sc := range []uint64{5, 100, 1000003, 1<<63 + 12345, 1<<64 - 1} {
+			tag := "Ring-scalar" + string(rune('0'+si))
+			sp := r.NewPoly() // the constant polynomial sc (residues), in Montgomery form for the product
+			for k, sub := range r.SubRings[:level+1] {
+				for i := range sp.Coeffs[k] {
+					sp.Coeffs[k][i] = MForm(sc%sub.Modulus, sub.Modulus, sub.BRedConstant)
+				}
+			}
+			prod, o1, o2 := r.NewPoly(), r.NewPoly(), r.NewPoly()
+			r.MulCoeffsMontgomery(a, sp, prod)
+			r.MulScalar(a, sc, o1)
+			vAssertPolyEq(r, o1, prod, tag+"-MulScalar")
+			o1.Copy(b)
+			r.MulScalarThenAdd(a, sc, o1)
+			r.Add(b, prod, o2)
+			vAssertPolyEq(r, o1, o2, tag+"-MulScalarThenAdd")
+			o1.Copy(b)
+			r.MulScalarThenSub(a, sc, o1)
+			r.Sub(b, prod, o2)
+			vAssertPolyEq(r, o1, o2, tag+"-MulScalarThenSub")
+			cst := r.NewPoly()
+			r.IMForm(sp, cst)
+			r.AddScalar(a, sc, o1)
+			r.Add(a, cst, o2)
+			vAssertPolyEq(r, o1, o2, tag+"-AddScalar")
+			r.SubScalar(a, sc, o1)
+			r.Sub(a, cst, o2)
+			vAssertPolyEq(r, o1, o2, tag+"-SubScalar")
+		}
+		// multiplication by X^k in Z[X]/(X^N+1) for every residue of k modulo 2N and beyond (negative, multiples of N)
+		n := r.N()
+		for _, k := range []int{0, 1, n - 1, n, n + 1, 2*n - 1, 2 * n, 2*n + 3, -1, -n, -n - 2, 5 * n} {
+			o := r.NewPoly()
+			r.MultByMonomial(a, k, o)
+			want := r.NewPoly()
+			kk := ((k % (2 * n)) + 2*n) % (2 * n)
+			for i := 0; i < n; i++ {
+				j := (i + kk) % (2 * n)
+				for l, sub := range r.SubRings[:level+1] {
+					if j < n {
+						want.Coeffs[l][j] = a.Coeffs[l][i]
+					} else {
+						want.Coeffs[l][j-n] = sub.Modulus - a.Coeffs[l][i]
+					}
+				}
+			}
+			vAssertPolyEq(r, o, want, "Ring-MultByMonomial-k"+vItoaR(k))
+		}
 		// limbs above the level of the view are untouched
 		big := vAtomPoly(full, "u", vJunk)
 		keep := *big.CopyNew()
@@ -63,4 +113,23 @@ func VerifH_C01_RingAlgebra() {
 		}
 	}
 	vCover("ring-algebra-reached")
+}
+
+func vItoaR(n int) string {
+	if n == 0 {
+		return "0"
+	}
+	neg := n < 0
+	if neg {
+		n = -n
+	}
+	t := ""
+	for n > 0 {
+		t = string(rune('0'+n%10)) + t
+		n /= 10
+	}
+	if neg {
+		t = "m" + t
+	}
+	return t
 }
